@@ -203,24 +203,12 @@ class SparselyBin(Factory, Container):
 
     @inheritdoc(Container)
     def __iadd__(self, other):
-        if isinstance(other, SparselyBin):
-            if self.binWidth != other.binWidth:
-                raise ContainerException(
-                    f"cannot add SparselyBins because binWidth differs ({self.binWidth} vs {other.binWidth})"
-                )
-            if self.origin != other.origin:
-                raise ContainerException(
-                    f"cannot add SparselyBins because origin differs ({self.origin} vs {other.origin})"
-                )
-            self.entries += other.entries
-            for i, v in other.bins.items():
-                if i in self.bins:
-                    self.bins[i] += v
-                else:
-                    self.bins[i] = v.copy()
-            self.nanflow += other.nanflow
-            return self
-        raise ContainerException(f"cannot add {self.name} and {other.name}")
+        # merge with + first: it raises, leaving both operands untouched, if anything is incompatible
+        both = self + other
+        self.entries = both.entries
+        self.bins = both.bins
+        self.nanflow = both.nanflow
+        return self
 
     @inheritdoc(Container)
     def __mul__(self, factor):
